@@ -236,7 +236,7 @@ func checkC16(c *Ctx) {
 		fmt.Println("C16 needs the overlay build (vmcx); this binary was built without it")
 		c.Cov.NotExhaustive("translatePos not reachable in this build")
 	}
-	c.Cov.Rule = "every exported position function is evaluated on an enumerated argument set and compared with the reference geometry: (node) all rows 0..Hsmall x all nodes, and for rows up to 63 a boundary grid of offsets {0,1,2,3,mid-1,mid,mid+1,w-3,w-2,w-1} per row, each with every rise/drop 0..R+2 and translation to R, R+1, R+3, 62, 63 and back; (leaves) every n<=2^Hn and the 2^k grid up to 2^64-1; (offset) DetectOffset on every node of every forest with n<=Noff; (proofpos) every non-nested target subset of every forest with n<=Npp in TR in {rows..rows+3,62,63}; non-trivial = cases above row 0 / with at least two trees / with at least two targets"
+	c.Cov.Rule = "every exported position function is evaluated on an enumerated argument set and compared with the reference geometry: (node) all rows 0..Hsmall x all nodes, and for rows up to 63 a boundary grid of offsets {0,1,2,3,mid-1,mid,mid+1,w-3,w-2,w-1} per row, each with every rise/drop 0..R+2 and translation to R, R+1, R+3, 62, 63 and back; (leaves) every n<=2^Hn and the 2^k grid up to 2^64-1; (offset) DetectOffset on every node of every forest with n<=Noff and on a boundary grid of nodes (first/last/middle of rows 0, 1, h/2, h-1, h of every tree) of forests with 2^k-ish leaf counts up to 2^63; (proofpos) every non-nested target subset of every forest with n<=Npp in TR in {rows..rows+3,62,63}; non-trivial = cases above row 0 / with at least two trees / with at least two targets"
 	Hsmall := pick(c, 11, 14)
 	Hn := pick(c, 14, 20)
 	Noff := pick(c, 600, 3000)
@@ -348,6 +348,41 @@ func checkC16(c *Ctx) {
 			}
 			a += uint64(1) << uint(h)
 			tree++
+		}
+		if len(cases) > 1<<18 {
+			run()
+		}
+	}
+	run()
+	// (offset, large): a boundary grid of nodes in every tree of large forests up to 63 rows
+	for k := uint(10); k <= 63; k++ {
+		b := uint64(1) << k
+		for _, n := range []uint64{b - 1, b, b + 1, b | (b >> 1), b | 0x5, (b - 1) &^ 2, b | (b >> 3) | 1} {
+			if n == 0 || n > uint64(1)<<63 {
+				continue
+			}
+			var a uint64
+			tree := uint64(0)
+			for h := 63; h >= 0; h-- {
+				if n&(uint64(1)<<uint(h)) == 0 {
+					continue
+				}
+				rows := map[int]bool{0: true, 1: true, h / 2: true, h - 1: true, h: true}
+				for r := range rows {
+					if r < 0 || r > h {
+						continue
+					}
+					first := a >> uint(r)
+					width := uint64(1) << uint(h-r)
+					for _, o := range []uint64{0, 1, width / 2, width - 2, width - 1} {
+						if o < width {
+							add(geomCase{Fn: "offset", A: []uint64{n, tree, a, uint64(h), uint64(r), first + o}})
+						}
+					}
+				}
+				a += uint64(1) << uint(h)
+				tree++
+			}
 		}
 		if len(cases) > 1<<18 {
 			run()
